@@ -3,6 +3,7 @@ package p_kv
 import (
 	"context"
 	"fmt"
+	"net"
 	"strings"
 	"sync"
 	"testing"
@@ -47,6 +48,7 @@ func genWCase(t *rapid.T, maxLen int, clock bool, faults ...bool) WCase {
 			op.Exp = clock && rapid.IntRange(0, 3).Draw(t, "exp") == 0
 			op.Past = clock && op.K != "create" && rapid.IntRange(0, 7).Draw(t, "past") == 0
 			op.Journal = op.K != "create" && rapid.IntRange(0, 3).Draw(t, "journal") == 0
+			op.Lag = op.K == "put" && clock && rapid.IntRange(0, 5).Draw(t, "lag") == 0
 		case "advance":
 			op.Min = rapid.SampledFrom([]int{25, 47, 90}).Draw(t, "min")
 		}
@@ -116,7 +118,7 @@ func runC07Redis(c WCase, bound time.Duration) (info WInfo, v *vstat.Violation, 
 		return true
 	}
 	env := &WEnv{Name: "redis", St: st, Now: time.Now, Advance: func(d time.Duration) { m.FastForward(d) }, Settle: settle,
-		Quiet: time.Sleep,
+		Quiet: time.Sleep, LaggingServer: true,
 		Raw: func(key string) []byte {
 			for _, k := range m.Keys() {
 				if strings.HasSuffix(k, key) {
@@ -284,9 +286,67 @@ type DeadlineCase struct {
 	Ms      int    `json:"ms"`               // deadline, from the start of the call
 	Change  int    `json:"change,omitempty"` // >0: the key gets a new version this many ms after the start (before the deadline): the waiter must return nil
 	Idx     int    `json:"idx,omitempty"`    // position inside the batch (part of the key: the cases of a batch run at the same time)
+	// StallPoll (redis): 1 + index of the waiter's poll whose REPLY the connection withholds until 2 s after the deadline
+	// (server or network silent): the waiter must be back by the deadline all the same - with the context's error or with
+	// the connection's own, never with nil or ErrNotExist
+	StallPoll int `json:"stall_poll,omitempty"`
+}
+
+// runStalledPoll: see DeadlineCase.StallPoll. Own server, own connection wrapper.
+func runStalledPoll(c DeadlineCase) *vstat.Violation {
+	m, err := miniredis.Run()
+	if err != nil {
+		return vstat.V("redis:setup", "miniredis: %v", err)
+	}
+	defer m.Close()
+	dl := time.Duration(c.Ms) * time.Millisecond
+	w := &wireSrv{m: m, last: time.Now(), plan: map[int]time.Duration{c.StallPoll - 1: dl + 2*time.Second}, replyOnly: true}
+	dial := func(ctx context.Context, network, addr string) (net.Conn, error) {
+		cn, err := (&net.Dialer{}).DialContext(ctx, network, addr)
+		if err != nil {
+			return nil, err
+		}
+		return &wireConn{Conn: cn, w: w}, nil
+	}
+	st := kvredis.New(&goredis.Options{Addr: m.Addr(), Dialer: dial, ReadTimeout: time.Minute, WriteTimeout: time.Minute, PoolTimeout: time.Minute, MaxRetries: -1})
+	defer st.(interface{ Close() error }).Close()
+	bg := context.Background()
+	r0, err := st.Put(bg, kvs.Record{Key: "sp", Value: []byte("0")})
+	if err != nil {
+		return vstat.V("redis:setup", "Put: %v", err)
+	}
+	ctx, cancel := context.WithTimeout(bg, dl)
+	defer cancel()
+	w.mu.Lock()
+	w.armed, w.t0 = true, time.Now()
+	w.mu.Unlock()
+	t0 := time.Now()
+	werr := st.WaitForVersionChange(ctx, "sp", r0.Version)
+	took := time.Since(t0)
+	w.mu.Lock()
+	w.armed = false
+	polls, log := w.n, strings.Join(w.log, " | ")
+	w.mu.Unlock()
+	if polls < c.StallPoll {
+		return nil // the deadline came before that poll
+	}
+	if werr == nil || isClass(werr, gerrors.ErrNotExist) {
+		return vstat.V("redis:wait-spurious", "the key was not touched and the reply of poll #%d was withheld; the waiter under a %d ms deadline returned %v after %v; commands: %s", c.StallPoll-1, c.Ms, werr, took, log)
+	}
+	if took > dl+700*time.Millisecond {
+		return vstat.V("redis:wait-outlives-deadline", "the reply of poll #%d was withheld for 2 s beyond the %d ms deadline of the waiter's context: WaitForVersionChange returned %v only %v after its start (%v after the deadline); commands: %s", c.StallPoll-1, c.Ms, werr, took, took-dl, log)
+	}
+	return nil
 }
 
 func runDeadline(t vstat.TB, c DeadlineCase) *vstat.Violation {
+	if c.StallPoll > 0 {
+		v := runStalledPoll(c)
+		if v != nil && v.Sig == "redis:wait-outlives-deadline" {
+			v = runStalledPoll(c) // a time bound: confirmed once
+		}
+		return v
+	}
 	var st kvs.Storage
 	key := fmt.Sprintf("dl-%d-%d-%d", c.Idx, c.Ms, c.Change)
 	if c.Backend == "redis" {
@@ -342,6 +402,9 @@ func TestC07Deadline(t *testing.T) {
 		}
 		cases = append(cases, DeadlineCase{Backend: be, Ms: 300, Change: 40}, DeadlineCase{Backend: be, Ms: 300, Change: 150})
 	}
+	for i, ms := range []int{60, 150, 250, 400} {
+		cases = append(cases, DeadlineCase{Backend: "redis", Ms: ms, StallPoll: 1 + i})
+	}
 	run := func(tb vstat.TB, batch []DeadlineCase) {
 		viols := make([]*vstat.Violation, len(batch))
 		var wg sync.WaitGroup
@@ -352,7 +415,11 @@ func TestC07Deadline(t *testing.T) {
 		wg.Wait()
 		for i, c := range batch {
 			st.Report(tb, "TestC07Deadline", c, viols[i])
-			st.Case(true, vstat.Hash(c), func() any { return c }, "deadline_waiter:"+c.Backend)
+			cl := []string{"deadline_waiter:" + c.Backend}
+			if c.StallPoll > 0 {
+				cl = append(cl, "deadline_waiter_with_a_withheld_poll_reply")
+			}
+			st.Case(true, vstat.Hash(c), func() any { return c }, cl...)
 		}
 	}
 	run(t, cases)
@@ -363,6 +430,8 @@ func TestC07Deadline(t *testing.T) {
 			c := DeadlineCase{Backend: rapid.SampledFrom([]string{"inmem", "redis", "redis"}).Draw(rt, "backend"), Ms: rapid.IntRange(10, 400).Draw(rt, "ms")}
 			if rapid.IntRange(0, 3).Draw(rt, "change") == 0 {
 				c.Change = rapid.IntRange(1, c.Ms).Draw(rt, "changeAt")
+			} else if c.Backend == "redis" && rapid.IntRange(0, 3).Draw(rt, "stalledPoll") == 0 {
+				c.StallPoll = 1 + rapid.IntRange(0, 5).Draw(rt, "poll")
 			}
 			c.Idx = i
 			batch = append(batch, c)
